@@ -62,6 +62,25 @@ Theorem C17_verify_only_owner :
                  Some (pw, c_pepper (cfg (fst (run H hash verify_hash (init H c) pre))))).
 Proof. exact verify_verdict. Qed.
 
+(* A password verifies only for a user that was created with it: if verify(u, pw) is true, the history contains the
+   successful create_user call with password pw that returned uid u. *)
+Theorem C17_verified_password_is_the_users_own :
+  forall (H : Type) (hash : pwd -> N -> pepper -> H) (verify_hash : H -> pwd -> pepper -> bool),
+    (forall pw salt pep pw' pep', verify_hash (hash pw salt pep) pw' pep' = true <-> pw' = pw /\ pep' = pep) ->
+    forall (c : config) (pre : list op) (u : N) (pw : pwd), rng_ok pre ->
+      snd (step H hash verify_hash (fst (run H hash verify_hash (init H c) pre)) (Verify u pw)) = Ok (VBool true) ->
+      exists ev, In ev (history H hash verify_hash c pre) /\ creates_user u pw ev.
+Proof. exact verified_password_is_the_users_own. Qed.
+
+(* create_user succeeds and returns the uid drawn for it whenever that uid has not been drawn before (v4 UUIDs). *)
+Theorem C17_create_user_fresh_uid_succeeds :
+  forall (H : Type) (hash : pwd -> N -> pepper -> H) (verify_hash : H -> pwd -> pepper -> bool),
+    (forall pw salt pep pw' pep', verify_hash (hash pw salt pep) pw' pep' = true <-> pw' = pw /\ pep' = pep) ->
+    forall (c : config) (pre : list op) (pw : pwd) (fu salt : N),
+      rng_ok pre -> ~ In fu (fresh_uids pre) ->
+      snd (step H hash verify_hash (fst (run H hash verify_hash (init H c) pre)) (CreateUser pw fu salt)) = Ok (VId fu).
+Proof. exact create_user_fresh_uid_succeeds. Qed.
+
 (* ---------------------------------------------------------------------------------------------------
    3. Tokens. tok_status reads off the history alone whether token t currently stands for a session, of which user and
    until when: Some (owner, expiry) after it was issued to owner, with the expiry set by the issue or the last
@@ -255,6 +274,8 @@ Print Assumptions C17_run_refines.
 Print Assumptions C17_reference_determines_results.
 Print Assumptions C17_never_crashes.
 Print Assumptions C17_verify_only_owner.
+Print Assumptions C17_verified_password_is_the_users_own.
+Print Assumptions C17_create_user_fresh_uid_succeeds.
 Print Assumptions C17_token_owner_only_while_valid.
 Print Assumptions C17_accepted_token_was_issued_to_that_user.
 Print Assumptions C17_issued_token_valid_until_expiry.
